@@ -1814,6 +1814,12 @@ def timing_inputs(n, kind):
         body = "".join('#EXT-X-KEY:METHOD=AES-128,URI="k%d",KEYFORMAT="f%d"\n#EXTINF:9.009,\nseg%d.ts\n' % (i, i, i) for i in range(n))
     elif kind == "long-attribute-list":
         body = '#EXT-X-DATERANGE:ID="a",' + ",".join('X-A%d="v,%d"' % (i, i) for i in range(n * 4)) + "\n#EXTINF:1,\ns.ts\n"
+    elif kind == "master-groups":
+        # n renditions in n groups, n variants each referencing one of them: the reference check is a product
+        return "#EXTM3U\n" + "".join('#EXT-X-MEDIA:TYPE=AUDIO,GROUP-ID="g%d",NAME="n%d"\n' % (i, i) for i in range(n)) + \
+            "".join('#EXT-X-STREAM-INF:BANDWIDTH=%d,AUDIO="g%d"\nv%d.m3u8\n' % (i + 1, n - 1 - i, i) for i in range(n))
+    elif kind == "master-session-data":
+        return "#EXTM3U\n" + "".join('#EXT-X-SESSION-DATA:DATA-ID="d%d",VALUE="v"\n' % i for i in range(n * 2))
     else:
         body = "#EXTINF:1," + '"' * (n * 20) + "\ns.ts\n" + "# " + "=," * (n * 10) + "\n"
     return "#EXTM3U\n#EXT-X-TARGETDURATION:10\n" + body
@@ -1841,13 +1847,14 @@ def c05_timing(ctx):
     out = {}
     viol = []
     base = 200 if ctx.quick else 400
-    kinds = (("bounded-keys", "linear"), ("unbounded-keys", "quadratic"), ("long-attribute-list", "linear"), ("quotes-and-separators", "linear"))
+    kinds = (("bounded-keys", "linear"), ("unbounded-keys", "quadratic"), ("long-attribute-list", "linear"), ("quotes-and-separators", "linear"),
+             ("master-groups", "quadratic"), ("master-session-data", "linear"))
     limits = {"linear": 5.5, "quadratic": 24.0}          # 4x the input: 4x / 16x the work, with slack; 8x / 64x would be the next power
     startup = _instructions(C.req("time", timing_inputs(1, "bounded-keys"), "rt_media"))
 
     def one(kind, n):
         text = timing_inputs(n, kind)
-        line = C.req("time", text, "rt_media")
+        line = C.req("time", text, "rt_master" if kind.startswith("master-") else "rt_media")
         o = C.run_many(C.IMPL, [line], 1)[0]
         us = int(o.split(" ")[1]) if o.startswith("ok ") else None
         ins = _instructions(line) if startup is not None else None
